@@ -3,7 +3,7 @@
    BOUNDED: every complex on at most 4 labelled points, every simplex, all four flag combinations;
    disjoint() on all 1-, 2- and 3-tuples of simplices of every complex on at most 3 points. *)
 From Coq Require Import String ZArith Bool Arith List.
-From SV Require Import Names Rep Complex Homology Filtration Gen World Small Sweeps NamesFacts RepInv Shapes Incidence StarOrder Duality.
+From SV Require Import Names Rep Complex Homology Filtration Gen World Small Sweeps NamesFacts RepInv Shapes Incidence StarOrder Duality VInv AwbSpec VSets Lookup ClosureCount.
 
 Theorem C04_closure_star_lookup_upto4_partial : forall c, In c complexes4 -> chk_closure_star (build c) = true.
 Proof. exact closure_star_upto4. Qed.
@@ -41,3 +41,40 @@ Theorem C04_star_listing :
   (forall i t u, nth_error L i = Some t -> In u (cofaces r t) -> exists j, j < i /\ nth_error L j = Some u).
 Proof. exact star_positions. Qed.
 Print Assumptions C04_star_listing.
+
+(* IN VERTEX SETS, every complex that meets the vertex-set reading (C01_vertex_set_reading_at_every_point):
+   closureOf(s) is exactly the simplices whose points are among s's, partOf(s) exactly those whose
+   points include s's *)
+Theorem C04_closure_is_subsets :
+  forall r s rev L, vinv r -> containsSimplex r s = true -> closureOf r s rev false = Ok L ->
+  forall t, In t L <-> containsSimplex r t = true /\ incl (basisOf r t) (basisOf r s).
+Proof. exact closureOf_is_subsets. Qed.
+Print Assumptions C04_closure_is_subsets.
+Theorem C04_star_is_supersets :
+  forall r s rev L, vinv r -> containsSimplex r s = true -> partOf r s rev false = Ok L ->
+  forall t, In t L <-> containsSimplex r t = true /\ incl (basisOf r s) (basisOf r t).
+Proof. exact partOf_is_supersets. Qed.
+Print Assumptions C04_star_is_supersets.
+(* the closure of a simplex of order k lists no simplex twice (any complex of any history) and has
+   exactly 2^(k+1) - 1 elements *)
+Theorem C04_closure_without_repeats :
+  forall r s rev L, sinv r -> closureOf r s rev false = Ok L -> NoDup L.
+Proof. exact closureOf_nodup. Qed.
+Print Assumptions C04_closure_without_repeats.
+Theorem C04_closure_count :
+  forall r s k j rev L, vinv r -> assoc s (r_simp r) = Some (k, j) ->
+  closureOf r s rev false = Ok L -> S (length L) = 2 ^ (S k).
+Proof. exact closureOf_count. Qed.
+Print Assumptions C04_closure_count.
+(* looking a simplex up by its basis (points of the complex, no repeats, not empty): the one simplex
+   on exactly these points, None exactly when there is none, never an exception *)
+Theorem C04_lookup_by_basis_exact :
+  forall r bs, vinv r -> pts r bs -> NoDup bs -> bs <> nil ->
+  match c_simplexWithBasis r bs false with
+  | Ok (Some s) => containsSimplex r s = true /\ sameset (basisOf r s) bs /\
+                   forall t, containsSimplex r t = true -> sameset (basisOf r t) bs -> t = s
+  | Ok None => forall t, containsSimplex r t = true -> ~ sameset (basisOf r t) bs
+  | Raise _ => False
+  end.
+Proof. exact lookup_by_basis_exact. Qed.
+Print Assumptions C04_lookup_by_basis_exact.
